@@ -311,6 +311,79 @@ func c08Veto(r *core.Run) {
 		}
 	}
 	r.Floor("C08.VETO", "missing-required-call test in the matcher", n, 1)
+	// the veto cannot be walked around: every path to a computed confidence passed the test on its
+	// 'nothing missing' edge, unless the signature has no required calls at all
+	for m := range matchers(p) {
+		mn := core.FuncName(m)
+		isMissing := func(v ssa.Value) bool {
+			ln, isLen := isBuiltinCall(v, "len")
+			if !isLen {
+				return false
+			}
+			ex, isEx := ln.Call.Args[0].(*ssa.Extract)
+			if !isEx {
+				return false
+			}
+			call, isCall := ex.Tuple.(*ssa.Call)
+			if !isCall || core.StaticCallee(&call.Call) == nil {
+				return false
+			}
+			res := core.StaticCallee(&call.Call).Signature.Results()
+			return res.Len() == 3 && ex.Index == 2
+		}
+		veto := func(cond ssa.Value) (bool, bool) {
+			op, x, y, neg, ok := core.Compare(cond)
+			if !ok || neg || !isMissing(x) {
+				return false, false
+			}
+			if z, isZ := core.ConstInt(y); !isZ || z != 0 {
+				return false, false
+			}
+			switch op {
+			case token.GTR, token.NEQ:
+				return true, false
+			case token.EQL:
+				return true, true
+			}
+			return false, false
+		}
+		bypass := map[core.Edge]bool{}
+		for _, b := range m.Blocks {
+			if len(b.Instrs) == 0 {
+				continue
+			}
+			ifi, ok := b.Instrs[len(b.Instrs)-1].(*ssa.If)
+			if !ok {
+				continue
+			}
+			op, x, y, neg, ok := core.Compare(ifi.Cond)
+			if !ok || neg || (op != token.GTR && op != token.NEQ) {
+				continue
+			}
+			ln, isLen := isBuiltinCall(x, "len")
+			if z, isZ := core.ConstInt(y); !isLen || !isZ || z != 0 {
+				continue
+			}
+			if strings.HasSuffix(core.Canon(ln.Call.Args[0]), ".RequiredCalls") {
+				bypass[core.Edge{From: b, Idx: 1}] = true
+			}
+		}
+		core.InstrsOf(m, func(in ssa.Instruction) {
+			st, ok := in.(*ssa.Store)
+			if !ok {
+				return
+			}
+			fa, ok := st.Addr.(*ssa.FieldAddr)
+			if !ok || core.FieldName(fa.X.Type(), fa.Field) != "Confidence" {
+				return
+			}
+			if _, isC := core.ConstFloat(st.Val); isC {
+				return
+			}
+			ok1, n1, path := core.MustPassFrom(m, m.Blocks[0], st.Block(), veto, bypass)
+			r.Check(ok1 && n1 > 0, "C08.VETO", mn+"#veto-on-every-path", st.Pos(), "every path to the computed confidence passed the missing-required-call test (or the signature requires no calls)", "a confidence can be computed for a signature with required calls without the missing-call test ("+core.FmtPath(path)+"): an alert is raised although a required call does not occur")
+		})
+	}
 }
 
 func c08Mono(r *core.Run) {
@@ -394,9 +467,140 @@ func c08Mono(r *core.Run) {
 		})
 	}
 	r.Floor("C08.MONO", "loads of the scanners' threshold field", n, 3)
+	// the collection of admitted alerts is already filtered by the threshold: its size or emptiness must
+	// not steer the scan (an early exit that skips further candidates makes a higher threshold add alerts)
+	m := 0
+	roots := map[*ssa.Function]bool{}
+	for _, a := range admissions(p) {
+		root := a.fn
+		for root.Parent() != nil {
+			root = root.Parent()
+		}
+		roots[root] = true
+	}
+	isAlerts := func(t types.Type) bool {
+		sl, ok := t.Underlying().(*types.Slice)
+		return ok && core.IsNamed(sl.Elem(), detPath(p), "ScanResult")
+	}
+	ms := matchers(p)
+	var hasMatcher func(f *ssa.Function, d int) bool
+	hasMatcher = func(f *ssa.Function, d int) bool {
+		found := false
+		core.InstrsOf(f, func(in ssa.Instruction) {
+			if c := core.CallOf(in); c != nil {
+				if callee := core.StaticCallee(c); callee != nil && (ms[callee] || (d < 2 && p.IsProdFunc(callee) && callee.Pkg == f.Pkg && hasMatcher(callee, d+1))) {
+					found = true
+				}
+			}
+		})
+		return found
+	}
+	// evaluates: some block of the set calls a matcher, a function (closure) that does, or opens an iterator
+	evaluates := func(blocks map[*ssa.BasicBlock]bool) bool {
+		for b := range blocks {
+			for _, in := range b.Instrs {
+				c := core.CallOf(in)
+				if c == nil {
+					continue
+				}
+				if strings.HasSuffix(core.CalleeName(c), ".NewIter") {
+					return true
+				}
+				if callee := core.StaticCallee(c); callee != nil && (ms[callee] || (p.IsProdFunc(callee) && hasMatcher(callee, 0))) {
+					return true
+				}
+				if mc, ok := c.Value.(*ssa.MakeClosure); ok {
+					if f, ok := mc.Fn.(*ssa.Function); ok && hasMatcher(f, 0) {
+						return true
+					}
+				}
+				if _, isBuiltin := c.Value.(*ssa.Builtin); !isBuiltin && core.StaticCallee(c) == nil && !c.IsInvoke() {
+					// call of a closure value held in a local: resolve through its binding
+					if f := closureFunc(core.Resolve(c.Value)); f != nil && hasMatcher(f, 0) {
+						return true
+					}
+				}
+			}
+		}
+		return false
+	}
+	for _, root := range core.SortedFuncs(roots) {
+		for _, fn := range core.Nest(root) {
+			m++
+			core.InstrsOf(fn, func(in ssa.Instruction) {
+				var arg ssa.Value
+				what := ""
+				switch x := in.(type) {
+				case *ssa.Call:
+					if b, ok := x.Call.Value.(*ssa.Builtin); ok && (b.Name() == "len" || b.Name() == "cap") && len(x.Call.Args) == 1 {
+						arg, what = x.Call.Args[0], b.Name()+"()"
+					}
+				case *ssa.BinOp:
+					if (x.Op == token.EQL || x.Op == token.NEQ) && (core.IsNilConst(x.X) || core.IsNilConst(x.Y)) {
+						arg, what = x.X, "nil test"
+						if core.IsNilConst(x.X) {
+							arg = x.Y
+						}
+					}
+				case *ssa.Range:
+					arg, what = x.X, "range"
+				}
+				if arg == nil || !isAlerts(arg.Type()) {
+					return
+				}
+				// parameters (alerts handed in from outside) are not this scan's filtered collection
+				for _, o := range core.Origins(arg) {
+					if _, isParam := o.(*ssa.Parameter); isParam {
+						return
+					}
+				}
+				v, isV := in.(ssa.Value)
+				if !isV {
+					return
+				}
+				// does it decide a branch one arm of which still evaluates candidates while the other does not?
+				for _, ifi := range branchesOn(v) {
+					r0 := evaluates(core.ReachAvoiding(ifi.Block().Succs[0], nil))
+					r1 := evaluates(core.ReachAvoiding(ifi.Block().Succs[1], nil))
+					r.Check(r0 == r1, "C08.MONO", core.FuncName(fn)+"#admitted-alerts-steer-scan("+what+")", in.Pos(), "a branch on the alerts admitted so far does not decide whether further candidates are evaluated", "the scan branches on the "+what+" of the alerts admitted so far (which depends on the threshold) and one arm skips candidates the other evaluates: a higher threshold can add alerts")
+				}
+			})
+		}
+	}
+	r.Floor("C08.MONO", "functions (with closures) that admit alerts", m, 4)
 }
 
 // confidenceDescending reports whether less is `s[i].Confidence > s[j].Confidence`.
+// branchesOn lists the Ifs whose condition is computed from v (through comparisons, negations and phis).
+func branchesOn(v ssa.Value) []*ssa.If {
+	var out []*ssa.If
+	seen := map[ssa.Value]bool{}
+	var walk func(v ssa.Value, d int)
+	walk = func(v ssa.Value, d int) {
+		if seen[v] || d > 5 || v.Referrers() == nil {
+			return
+		}
+		seen[v] = true
+		for _, ref := range *v.Referrers() {
+			switch x := ref.(type) {
+			case *ssa.If:
+				out = append(out, x)
+			case *ssa.BinOp:
+				walk(x, d+1)
+			case *ssa.UnOp:
+				walk(x, d+1)
+			case *ssa.Phi:
+				walk(x, d+1)
+			}
+		}
+	}
+	if _, isRange := v.(*ssa.Range); isRange {
+		return nil
+	}
+	walk(v, 0)
+	return out
+}
+
 func confidenceDescending(less *ssa.Function) bool {
 	if less == nil || len(less.Params) != 2 {
 		return false
